@@ -40,13 +40,13 @@ POSTCONDITION Accepted
 CHECK_DEADLOCK FALSE
 """ % (DELIM, ENCLEN, ENCLENCHK)
 
-def gen_cfg(modes, vals, families, stride_p, stride_e, stride_c, phase, stride_c2=1, stride_bc=1):
+def gen_cfg(modes, vals, families, stride_p, stride_e, stride_c, phase, stride_c2=1, stride_bc=1, stride_a=1):
     return ("SPECIFICATION GSpec\nCONSTANTS\n Delim = 63\n NoVal <- NoValGen\n ENCLEN = %d\n ENCLENCHK = %d\n"
             " CN = 2\n CAuth = FALSE\n CEnc = FALSE\n CChunked = FALSE\n CVariant = \"select\"\n CMACLEN = 32\n CBLK = 16\n CBUFSZ = 4096\n"
             " Rcv = 1\n Prog <- GenProg\n MaxFault = 1\n Kinds <- GenKinds\n Scheds = {3}\n ArrSize = 0\n TagNL <- GenTagNL\n IvNL = {}\n"
-            " GenVals <- %s\n GenModes <- %s\n Families = {%s}\n StrideP = %d\n StrideE = %d\n StrideC = %d\n Phase = %d\n StrideC2 = %d\n StrideBC = %d\n"
+            " GenVals <- %s\n GenModes <- %s\n Families = {%s}\n StrideP = %d\n StrideE = %d\n StrideC = %d\n Phase = %d\n StrideC2 = %d\n StrideBC = %d\n StrideA = %d\n"
             "INVARIANTS GenOK GenPrint\nCHECK_DEADLOCK FALSE\n" % (ENCLEN, ENCLENCHK, vals, modes, ",".join('"%s"' % f for f in families),
-                                                                  stride_p, stride_e, stride_c, phase, stride_c2, stride_bc))
+                                                                  stride_p, stride_e, stride_c, phase, stride_c2, stride_bc, stride_a))
 
 def mode_name(variant, auth, enc, chunked):
     return "%s-%s%s%s" % (variant, "a" if auth else "-", "e" if enc else "-", "c" if chunked else "-")
@@ -158,9 +158,9 @@ def run_generators(ck, tier, seed):
     cfgp = os.path.join(d, "GEN_Aio_%s.cfg" % tier)
     with open(cfgp, "w") as f:
         if tier == "quick":
-            f.write(gen_cfg("QuickModes", "GenVals2", ["cut1", "byte", "msg"], 5, 11, 4, seed))
+            f.write(gen_cfg("QuickModes", "GenVals2", ["cut1", "byte", "msg", "arr"], 5, 11, 4, seed, stride_a=97))
         else:
-            f.write(gen_cfg("AllModes", "GenVals3", ["cut1", "cut2", "byte", "bytecut", "msg"], 1, 1, 1, seed, stride_c2=9, stride_bc=3))
+            f.write(gen_cfg("AllModes", "GenVals3", ["cut1", "cut2", "byte", "bytecut", "msg", "arr"], 1, 1, 1, seed, stride_c2=9, stride_bc=3, stride_a=5))
     r = vlib.tlc("AioGen", cfgp, workers=6 if tier == "quick" else 12, timeout=900 if tier == "quick" else 3000, xmx="6g")
     name = "GEN_Aio_" + tier
     if r.error:
@@ -175,7 +175,7 @@ def run_generators(ck, tier, seed):
             continue
         c = h["cfg"]
         sched.append({"cfg": {"n": c["n"], "variant": c["variant"], "auth": c["auth"], "enc": c["enc"], "chunked": c["chunked"]},
-                      "events": h["events"], "dl": h["dl"],
+                      "events": h["events"], "dl": h["dl"], "da": h.get("da", []), "arrsize": h.get("arrsize", 0),
                       "id": {"mode": mode_name(c["variant"], c["auth"], c["enc"], c["chunked"]), "case": h.get("id")}})
     sched.sort(key=lambda x: json.dumps(x["id"], sort_keys=True))
     ck.part(name, behaviours=len(sched))
@@ -192,8 +192,8 @@ def compare_final(ck, sched, execs):
         if faulty and q.get("lookalike"):
             nskip += 1      # a real tag / IV octet equals NL: the nominal behaviour may differ in between; AioTrace decides
             continue
-        got = q["dl"].get("1<-0", [])
-        want = [str(v) for v in s["dl"]]
+        got = q["da"].get("1<-0", []) if s.get("arrsize") else q["dl"].get("1<-0", [])
+        want = [[str(v) for v in a] for a in s["da"]] if s.get("arrsize") else [str(v) for v in s["dl"]]
         nchk += 1
         if got != want:
             nbad += 1
@@ -304,7 +304,7 @@ def run(tier, seed):
     compare_final(ck, sched, execsA)
     vlib.log("replay done at %.0fs" % (time.time() - ck.t0))
     # ---- 3. direction B: randomized exploration, recorded next to the validation of A
-    nexec = 192 if quick else 2880
+    nexec = 128 if quick else 2880
     chunks = 8 if quick else 16
     def rec(k):
         per = nexec // chunks
@@ -323,7 +323,7 @@ def run(tier, seed):
     vlib.log("validation B done at %.0fs" % (time.time() - ck.t0))
     ck.add_traces(nA + nB)
     ck.add_cases("replayed-tlc-behaviours", len(execsA),
-                 [json.dumps(s["id"], sort_keys=True) for s, x in zip(sched, execsA) if any(e["e"] == "Recv" and e["ok"] for e in x) or any(e["e"] == "Fault" for e in x)])
+                 [json.dumps(s["id"], sort_keys=True) for s, x in zip(sched, execsA) if any(e["e"] in ("Recv", "RecvArr") and e["ok"] for e in x) or any(e["e"] == "Fault" for e in x)])
     keysB = []
     for x in execsB:
         ndl = sum(1 for e in x if e["e"] in ("Recv", "RecvArr") and e.get("ok"))
